@@ -27,16 +27,19 @@ PROP = "C13"
 UNDET = "undetermined"
 
 # plain probe options (no built-in feature sets them): name -> (values per source, default)
+# (width and pager are optional strings inside delta: a different value type than the labels)
 PLAIN = ["file-added-label", "file-removed-label", "file-renamed-label", "right-arrow",
-         "word-diff-regex", "tabs", "diff-stat-align-width", "file-copied-label"]
+         "word-diff-regex", "tabs", "diff-stat-align-width", "width", "pager", "max-line-distance"]
 SHOWN = {"file-added-label", "file-removed-label", "file-renamed-label", "right-arrow", "word-diff-regex",
-         "tabs", "diff-stat-align-width", "file-modified-label"}
+         "tabs", "diff-stat-align-width", "file-modified-label", "width", "pager", "max-line-distance"}
 SOURCES = ["cli", "main", "gcp", "f1", "f2"]
 INT_OPTS = {"tabs": {"cli": "11", "main": "12", "gcp": "13", "f1": "14", "f2": "15"},
-            "diff-stat-align-width": {"cli": "21", "main": "22", "gcp": "23", "f1": "24", "f2": "25"}}
+            "diff-stat-align-width": {"cli": "21", "main": "22", "gcp": "23", "f1": "24", "f2": "25"},
+            "width": {"cli": "91", "main": "92", "gcp": "93", "f1": "94", "f2": "95"},
+            "max-line-distance": {"cli": "0.11", "main": "0.12", "gcp": "0.13", "f1": "0.14", "f2": "0.15"}}
 DEFAULTS = {"file-added-label": "added:", "file-removed-label": "removed:", "file-renamed-label": "renamed:",
             "right-arrow": "⟶  ", "word-diff-regex": "\\w+", "tabs": "8", "diff-stat-align-width": "48",
-            "file-modified-label": ""}
+            "file-modified-label": "", "width": "80", "pager": "none", "max-line-distance": "0.6"}
 BUILTIN = {"navigate": {"file-modified-label": "Δ"}}
 
 
@@ -209,12 +212,13 @@ def all_subsets():
 
 
 def graphs(tier):
-    lists = [["f1"], ["f2"], ["navigate"], ["f1", "f2"], ["f2", "f1"], ["f1", "navigate"], ["navigate", "f1"]]
+    lists = [["f1"], ["f2"], ["navigate"], ["f1", "f2"], ["f2", "f1"], ["f1", "navigate"], ["navigate", "f1"],
+             ["f1", "f2", "f1"], ["f2", "f1", "f2"]]
     if tier == "thorough":
-        lists += [["f1", "f1"], ["f1", "f2", "f1"], ["navigate", "f2"], ["f2", "navigate", "f1"]]
+        lists += [["f1", "f1"], ["navigate", "f2"], ["f2", "navigate", "f1"]]
     cli_f = [None] + lists
-    env_f = [None, "f2", "+f2", "navigate", "f1 f2", "+navigate"] + (["f2 f1", "+f1"] if tier == "thorough" else [])
-    main_f = [None, ["f1"], ["f2", "f1"], ["navigate", "f1"]] + ([["f1", "f2"], ["f2"]] if tier == "thorough" else [])
+    env_f = [None, "f2", "+f2", "navigate", "f1 f2", "+navigate", "+f1"] + (["f2 f1"] if tier == "thorough" else [])
+    main_f = [None, ["f1"], ["f2", "f1"], ["navigate", "f1"], ["f1", "f2"]] + ([["f2"]] if tier == "thorough" else [])
     nested = [None, "f2", "navigate"] + (["f2 navigate"] if tier == "thorough" else [])
     flags = [None, "cli", "main", "f1"]
     for c in cli_f:
@@ -382,7 +386,7 @@ def main(tier):
             for oi, opt in enumerate(PLAIN):
                 if opt not in SHOWN:
                     continue
-                subsets[opt] = subs[(rnd * 8 + oi) % 32]
+                subsets[opt] = subs[(rnd * 8 + oi + gi) % 32]
             # file-modified-label: set by the built-in navigate; sources rotate as well
             subsets["file-modified-label"] = subs[(gi * 5 + rnd * 7) % 32]
             cases.append(Scenario(c, e, m, n_, fl, subsets, gcp_format=(gi + rnd) % 2,
